@@ -226,3 +226,18 @@ def bounded_for(c, tier, seed):
             r['input'] = inp
             return r
     return None
+
+
+# ---------------------------------------------------------------- the per-author bypass map (an input of the contract)
+def extra(rep, tier, seed, budget):
+    # job.author_bypass is an input above; the map it reads is built by settings.PrAuthorsOptions.deserialize,
+    # checked by a bounded stand-in on the real function (labelled bounded, not counted as proved)
+    from bounded import author_options
+    author_options.integrate(rep)
+
+
+def replay_file(data):
+    from bounded import author_options
+    if isinstance(data.get('case'), dict) and data.get('clause') in ('map', 'authors', 'crash', 'unknown'):
+        return author_options.replay(data['case'])
+    return None
